@@ -506,6 +506,25 @@ func (self *Interpreter) memberExpression(node ast.AnalyzedMemberExpression) (*v
 		return nil, i
 	}
 
+	// `obj->key` looks the key up in an any-object and yields an option, `obj~>key` also unwraps it.
+	if node.Operator == pAst.ArrowMemberOperator || node.Operator == pAst.TildeArrowMemberOperator {
+		field, found := (*base).(value.ValueAnyObject).FieldsInternal[node.Member.Ident()]
+		if node.Operator == pAst.ArrowMemberOperator {
+			if !found {
+				return value.NewNoneOption(), nil
+			}
+			return value.NewValueOption(field), nil
+		}
+		if !found {
+			return nil, value.NewRuntimeErr(
+				"Called 'unwrap' on a 'null' option value",
+				value.ValueErrorKind,
+				node.Span(),
+			)
+		}
+		return field, nil
+	}
+
 	fields, i := (*base).Fields()
 	if i != nil {
 		return nil, i
